@@ -10,6 +10,8 @@ T=/tmp/triage-$NAME
 rm -rf $T; git -C /repo worktree prune; git -C /repo worktree add -q --detach $T HEAD || exit 2
 export CARGO_TARGET_DIR=/tmp/triage-target CARGO_NET_OFFLINE=true
 cd $T
+# EXTRA_DIFF: a test-only change the demonstration needs (e.g. a dev-dependency), kept on both sides
+if [ -n "${EXTRA_DIFF:-}" ]; then git apply $SRC/$EXTRA_DIFF || { echo "EXTRA DIFF DOES NOT APPLY"; exit 2; }; fi
 git apply $SRC/patch.diff || { echo "PATCH DOES NOT APPLY"; exit 2; }
 suite=$(cargo test --workspace --no-fail-fast --offline 2>&1 | grep -E "^test result" | grep -vc " 0 failed" )
 nres=$(cargo test --workspace --no-fail-fast --offline 2>&1 | grep -cE "^test result")
@@ -21,7 +23,8 @@ echo "TRIAGE $NAME: suite_failing_results=$suite (of $nres) demo_with_change_exi
 cd /; git -C /repo worktree remove --force $T
 if [ "$suite" = "0" ] && [ $with -ne 0 ] && [ $without -eq 0 ]; then
   mkdir -p /verif/seeded/$NAME; cp $SRC/patch.diff $SRC/demo.rs /verif/seeded/$NAME/; cp $SRC/NOTES.md /verif/seeded/$NAME/NOTES.agent.md 2>/dev/null
-  echo "$CRATE $TEST $FEAT" > /verif/seeded/$NAME/demo_cmd.txt
+  echo "$CRATE $TEST $FEAT${RUSTFLAGS:+ RUSTFLAGS=$RUSTFLAGS}${EXTRA_DIFF:+ EXTRA_DIFF=$EXTRA_DIFF}" > /verif/seeded/$NAME/demo_cmd.txt
+  if [ -n "${EXTRA_DIFF:-}" ]; then cp $SRC/$EXTRA_DIFF /verif/seeded/$NAME/; fi
   echo "CONFIRMED $NAME"
 else
   echo "NOT CONFIRMED $NAME"; tail -5 /tmp/triage-$NAME.with.log /tmp/triage-$NAME.without.log
